@@ -2,11 +2,16 @@ import RawPanelVerif.Base.Wire
 import RawPanelVerif.Model.EncIn
 import RawPanelVerif.Model.DecIn
 import RawPanelVerif.Spec.GrammarIn
+import RawPanelVerif.Gen.Consts
 /-!
 Driver glue for the inbound converters: `ein.*` records (C01: messages → lines) and `din.*` records (C02: lines →
 messages).  Canonical token format of messages (harness/convin.go prints it):
 
 ```
+ein.rt <msgs> | <msgs>                    decoder(encoder(msgs)); H = effects equal the effects of the original messages
+din.rx <name> | <hex pattern text>        the pattern text of the library's compiled regexp object = `Gen.regex_*_src`
+din.match <name> <hex line> | - / M <hex submatch>*   the byte matcher of Model/DecIn.lean = the real regular expression
+
 msgs   := [ n item*                      item := msg | ~            (~ = nil message, decoder output only)
 msg    := M flow cmd [ n state* [ n reg*
 cmd    := ~ | C b16 br cal net env st sm ss dg hb ps lc ws js        b16 = the 16 flags as one 0/1 string
@@ -286,24 +291,10 @@ def unhexLines (s : String) : Option (List Bytes) :=
 
 /-! ## C01: predicate on the implementation's lines -/
 
-open Spec.In in
-/-- effects that commute: different kinds or different components -/
-def effKey (e : Effect) : String :=
-  match e with
-  | .flow _ | .cmd _ => "ctl"
-  | .setMode id _ => s!"m{id}"
-  | .setColor id _ => s!"c{id}"
-  | .setExt id _ => s!"x{id}"
-  | .setText id _ => s!"t{id}"
-  | .setGfx id _ => s!"g{id}"
-  | .setRawADC id _ => s!"r{id}"
-  | .reg k id _ => s!"R{repr k}{hexOfBytes id}"
-
-open Spec.In in
-/-- equal up to a permutation that keeps the order of non-commuting effects -/
-def permCommuting (a b : List Effect) : Bool :=
-  a.length == b.length &&
-  ((a ++ b).map effKey).eraseDups.all (fun k => a.filter (fun e => effKey e == k) == b.filter (fun e => effKey e == k))
+/-! The property fixes the order: messages in submission order; inside one message flow, commands (emission order of
+the 29 fields), states in list order, for each state its component ids in list order, for each id mode / colour /
+extended / text / graphics / raw-ADC, then registers in list order.  Nothing on the inbound side iterates over a Go
+map, so the comparison is EXACT list equality per message (no permutation is tolerated). -/
 
 open Spec.In in
 def checkC01 (expected : List (List Effect)) (got : List Effect) : Option String :=
@@ -313,7 +304,7 @@ def checkC01 (expected : List (List Effect)) (got : List Effect) : Option String
     | e :: rest =>
       let seg := got.take e.length
       if seg.length ≠ e.length then some s!"missing-effects@msg{i}"
-      else if !permCommuting e seg then some s!"wrong-effects@msg{i}"
+      else if e != seg then some s!"wrong-effects@msg{i}"
       else go (i + 1) rest (got.drop e.length)
   go 0 expected got
 
@@ -348,10 +339,16 @@ def stepEin (args : List String) (impl : String) : String :=
         let eq := match model with | .ok ml => ml == lines | .error _ => false
         let h :=
           if lines.any (fun l => l.contains 10) then "H0:lf-in-line"
-          else if !Spec.In.inDomainIn O ms then "H1 B:outdom"
-          else match checkC01 (ms.map Spec.In.effectsOfIn) (Spec.In.readInbound O lines) with
+          else if Spec.In.inDomainIn O ms then
+            match checkC01 (ms.map Spec.In.effectsOfIn) (Spec.In.readInbound O lines) with
             | none => "H1"
             | some c => s!"H0:{c}"
+          -- outside the representable domain but with grammar lines: the effects of the masked messages (enc_sound_masked)
+          else if Spec.In.inWireDomain O ms then
+            match checkC01 (ms.map (fun m => Spec.In.effectsOfIn (Spec.In.maskMsg m))) (Spec.In.readInbound O lines) with
+            | none => "H1 B:wiredom"
+            | some c => s!"H0:masked-{c} B:wiredom"
+          else "H1 B:outdom"
         if eq then s!"EQ {h}{tags}" else s!"NE {h} {modelStr}{tags}"
 
 /-! ## C02 -/
@@ -428,10 +425,85 @@ def stepDin (args : List String) (impl : String) : String :=
           else "H0:effects-differ"
         if eq then s!"EQ {h}{tags}" else s!"NE {h} {modelStr}{tags}"
 
+/-! ## round trip (C02 `roundtrip_in` on the implementation) -/
+
+def stepRt (args : List String) (impl : String) : String :=
+  match (pList pMsg).run { toks := args } with
+  | none => "ERR bad-record"
+  | some (ms, st) =>
+    let O := mkOracles st.nets [] [] []
+    let model := match encInE O ms with
+      | .ok ls => decInE O ls
+      | .error e => .error e
+    let modelStr := match model with | .ok out => sMsgs out | .error _ => "panic"
+    if impl.startsWith "panic" then
+      let eq := match model with | .error _ => "EQ" | .ok _ => "NE"
+      s!"{eq} H0:panic {modelStr} B:rt"
+    else
+      match (pList pMsgOpt).run { toks := (impl.splitOn " ").filter (· ≠ "") } with
+      | none => "ERR bad-impl"
+      | some (ims, _) =>
+        let eq := match model with | .ok mm => mm == ims | .error _ => false
+        let h :=
+          if ims.any Option.isNone then "H0:nil-message B:rt"
+          else if !(Spec.In.inDomainIn O ms && Spec.In.roundtripGuard ms) then "H1 B:rt-outdom"
+          else if ims.flatMap Spec.In.effectsOfMsgOpt == ms.flatMap Spec.In.effectsOfIn then "H1 B:rt"
+          else "H0:roundtrip-effects-differ B:rt"
+        if eq then s!"EQ {h}" else s!"NE {h} {modelStr}"
+
+/-! ## the byte matchers against the library's regular expressions -/
+
+def regexSrc (name : String) : Option String :=
+  match name with
+  | "regex_cmd" => some Gen.regex_cmd_src
+  | "regex_gfx" => some Gen.regex_gfx_src
+  | "regex_genericSingle" => some Gen.regex_genericSingle_src
+  | "regex_genericDual" => some Gen.regex_genericDual_src
+  | "regex_genericSingleStr" => some Gen.regex_genericSingleStr_src
+  | "regex_registers" => some Gen.regex_registers_src
+  | _ => none
+
+def matcherOf (name : String) : Option (Bytes → Option (List Bytes)) :=
+  match name with
+  | "regex_cmd" => some matchCmd
+  | "regex_gfx" => some matchGfx
+  | "regex_genericSingle" => some matchSingle
+  | "regex_genericDual" => some matchDual
+  | "regex_genericSingleStr" => some matchStr
+  | "regex_registers" => some matchReg
+  | _ => none
+
+/-- the pattern text of the compiled object the decoder runs is the source text the extractor wrote (which
+`C02.regex_sources_tie` pins and whose alternations `C02.regex_keywords_tie` equates with the keyword tables) -/
+def stepRx (args : List String) (impl : String) : String :=
+  match args with
+  | [name] =>
+    match regexSrc name, hexS impl with
+    | some src, some pat =>
+      if src.toUTF8.toList == pat then s!"EQ H1 B:rx-{name}" else s!"NE H1 {hexOfBytes src.toUTF8.toList} B:rx-{name}"
+    | _, _ => "ERR bad-record"
+  | _ => "ERR bad-record"
+
+def stepMatch (args : List String) (impl : String) : String :=
+  match args with
+  | [name, l] =>
+    match matcherOf name, hexS l with
+    | some f, some line =>
+      let model := match f line with
+        | none => "-"
+        | some m => "M " ++ " ".intercalate ((m.drop 1).map hexOfBytes)
+      let tag := s!" B:{name}-" ++ (if model = "-" then "nomatch" else "match")
+      if model == " ".intercalate ((impl.splitOn " ").filter (· ≠ "")) then s!"EQ H1{tag}" else s!"NE H1 {model}{tag}"
+    | _, _ => "ERR bad-record"
+  | _ => "ERR bad-record"
+
 def step (cmd : String) (args : List String) (impl : String) : String :=
   match cmd with
   | "ein.msgs" => stepEin args impl
+  | "ein.rt" => stepRt args impl
   | "din.lines" => stepDin args impl
+  | "din.rx" => stepRx args impl
+  | "din.match" => stepMatch args impl
   | _ => "ERR bad-record"
 
 end RawPanelVerif.Driver.ConvIn
